@@ -26,6 +26,14 @@ type SpecEnv struct {
 	oldVars map[string]Val
 	bound   map[string]*Term
 	depth   int
+	// pending: instances `requires ==> ensures` of abstract functions applied under the
+	// innermost enclosing quantifier (they mention its bound variable, so they are stated
+	// inside it: valid formulas, added as antecedents / conjuncts of the body)
+	pending *[]*Term
+	// quantInst enables those instances; it is set where a callee's precondition is evaluated
+	// at a call site (the place where a quantified requirement about an abstract lookup has to
+	// be derived from that lookup's postcondition)
+	quantInst bool
 }
 
 type specErr struct{ msg string }
@@ -270,13 +278,10 @@ func (e *SpecEnv) eval(x *SExpr) Val {
 			bv = Sym("$"+x.S+"!"+strconv.Itoa(e.depth)+"!"+SortOf(gt).Name, SortOf(gt))
 			c.vars[x.S] = TV{bv, gt}
 		}
+		var pend []*Term
+		c.pending = &pend
 		body := c.term(c.eval(x.Args[1]))
-		var facts []*Term
-		collect([]*Term{body}, func(t *Term) {
-			if t.Rng != nil && t.Sort == SInt && dependsOn(t, bv) && isAtom(t) {
-				facts = append(facts, rangeFact(t))
-			}
-		})
+		facts := append(boundRangeFacts(body, bv), pend...)
 		if x.Op == "forallT" {
 			return boolV(Forall([]*Term{bv}, Implies(And(facts...), body)))
 		}
@@ -288,14 +293,11 @@ func (e *SpecEnv) eval(x *SExpr) Val {
 		c := e.child()
 		c.depth = e.depth + 1
 		c.vars[x.S] = mathInt(bv)
+		var pend []*Term
+		c.pending = &pend
 		body := c.term(c.eval(x.Args[2]))
 		// typing facts for atoms that depend on the bound variable
-		var facts []*Term
-		collect([]*Term{body}, func(t *Term) {
-			if t.Rng != nil && t.Sort == SInt && dependsOn(t, bv) && isAtom(t) {
-				facts = append(facts, rangeFact(t))
-			}
-		})
+		facts := append(boundRangeFacts(body, bv), pend...)
 		rng := And(Le(lo, bv), Lt(bv, hi))
 		if x.Op == "forall" {
 			return boolV(Forall([]*Term{bv}, Implies(And(append([]*Term{rng}, facts...)...), body)))
@@ -304,6 +306,25 @@ func (e *SpecEnv) eval(x *SExpr) Val {
 	}
 	e.fail("cannot evaluate %s %s", x.Op, x.S)
 	return nil
+}
+
+// boundRangeFacts: typing facts of the atoms of a quantifier body that depend on its bound
+// variable; atoms that also mention a variable bound by a nested quantifier belong to that
+// quantifier (stating them here would leave its variable free).
+func boundRangeFacts(body, bv *Term) []*Term {
+	var inner []*Term
+	collect([]*Term{body}, func(t *Term) {
+		if t.Op == "forall" || t.Op == "exists" || t.Op == "lam" {
+			inner = append(inner, t.Bnd...)
+		}
+	})
+	var facts []*Term
+	collect([]*Term{body}, func(t *Term) {
+		if t.Rng != nil && t.Sort == SInt && isAtom(t) && dependsOn(t, bv) && !dependsOnAny(t, inner) {
+			facts = append(facts, rangeFact(t))
+		}
+	})
+	return facts
 }
 
 func isAtom(t *Term) bool {
@@ -709,9 +730,7 @@ func (e *SpecEnv) call(x *SExpr) Val {
 					ts = append(ts, t)
 				}
 				r := e.ex.abstractApp(key, ts)
-				if e.depth == 0 {
-					e.ex.instantiateAbstract(key, c, ts, r)
-				}
+				e.instantiate(key, c, ts, r)
 				return r
 			}
 		}
@@ -748,9 +767,7 @@ func (e *SpecEnv) call(x *SExpr) Val {
 							ts = append(ts, e.term(e.eval(a)))
 						}
 						r := e.ex.abstractApp(key, ts)
-						if e.depth == 0 {
-							e.ex.instantiateAbstract(key, c, ts, r)
-						}
+						e.instantiate(key, c, ts, r)
 						return r
 					}
 				}
@@ -962,10 +979,6 @@ func (ex *Exec) instantiateAbstract(key string, con *Contract, args []*Term, res
 	if len(con.Ensures) == 0 {
 		return
 	}
-	fn := ex.P.Funcs[key]
-	if fn == nil || len(fn.Params) != len(args) {
-		return
-	}
 	if ex.absDone == nil {
 		ex.absDone = map[string]bool{}
 	}
@@ -978,7 +991,43 @@ func (ex *Exec) instantiateAbstract(key string, con *Contract, args []*Term, res
 		return
 	}
 	ex.absDone[sb.String()] = true
-	env := &SpecEnv{ex: ex, pkgPath: con.PkgPath, vars: map[string]Val{}, mem: Mem{}, old: Mem{}}
+	ex.Assumes = append(ex.Assumes, ex.abstractInstances(key, con, args, res, 0)...)
+}
+
+// instantiate: at depth 0 the instance is a global assumption; under a quantifier it joins the
+// pending list of the innermost one.
+func (e *SpecEnv) instantiate(key string, con *Contract, args []*Term, res Val) {
+	if os.Getenv("GOVC_SPECTRACE") != "" {
+		fmt.Fprintln(os.Stderr, "instantiate", key, "depth", e.depth, "pending", e.pending != nil)
+	}
+	if e.depth == 0 || e.pending == nil || !e.quantInst {
+		if e.depth == 0 {
+			e.ex.instantiateAbstract(key, con, args, res)
+		}
+		return
+	}
+	for _, t := range e.ex.abstractInstances(key, con, args, res, e.depth) {
+		dup := false
+		for _, o := range *e.pending {
+			if o == t {
+				dup = true
+			}
+		}
+		if !dup {
+			*e.pending = append(*e.pending, t)
+		}
+	}
+}
+
+// abstractInstances evaluates `requires ==> ensures` of an abstract function for one argument
+// tuple; quantifiers of the contract bind variables numbered from depth upwards, so they cannot
+// capture the bound variables of the context the arguments come from.
+func (ex *Exec) abstractInstances(key string, con *Contract, args []*Term, res Val, depth int) []*Term {
+	fn := ex.P.Funcs[key]
+	if fn == nil || len(fn.Params) != len(args) || len(con.Ensures) == 0 {
+		return nil
+	}
+	env := &SpecEnv{ex: ex, pkgPath: con.PkgPath, vars: map[string]Val{}, mem: Mem{}, old: Mem{}, depth: depth}
 	for i, p := range fn.Params {
 		env.vars[p.Name()] = TV{args[i], p.Type()}
 	}
@@ -986,18 +1035,26 @@ func (ex *Exec) instantiateAbstract(key string, con *Contract, args []*Term, res
 	for _, cl := range con.Requires {
 		t, err := env.EvalBool(cl.Expr)
 		if err != nil {
-			return
+			if os.Getenv("GOVC_SPECTRACE") != "" {
+				fmt.Fprintln(os.Stderr, "abstractInstances", key, "requires:", err)
+			}
+			return nil
 		}
 		pre = append(pre, t)
 	}
 	bindResults(env.vars, fn, res)
+	var out []*Term
 	for _, cl := range con.Ensures {
 		t, err := env.EvalBool(cl.Expr)
 		if err != nil {
+			if os.Getenv("GOVC_SPECTRACE") != "" {
+				fmt.Fprintln(os.Stderr, "abstractInstances", key, "ensures", cl.Label, ":", err)
+			}
 			continue
 		}
-		ex.Assumes = append(ex.Assumes, Implies(And(pre...), t))
+		out = append(out, Implies(And(pre...), t))
 	}
+	return out
 }
 
 func sexprString(x *SExpr) string {
